@@ -21,7 +21,7 @@ ANCHORS = ["LaneletNetwork.cleanup_lanelet_references", "LaneletNetwork.cleanup_
            "LaneletNetwork.remove_intersection", "LaneletNetwork.create_from_lanelet_network",
            "LaneletNetwork.create_from_lanelet_list", "Scenario.remove_lanelet",
            "Scenario.remove_hanging_lanelet_members"]
-REQUIRED = ["op.scenario.remove_lanelet", "op.scenario.remove_lanelet-list", "op.scenario.remove_lanelet-noref",
+REQUIRED = ["op.scenario.remove_lanelet-in-two-calls", "op.scenario.remove_lanelet-in-two-calls-list", "op.scenario.remove_lanelet", "op.scenario.remove_lanelet-list", "op.scenario.remove_lanelet-noref",
             "op.network.remove_lanelet", "op.network.remove_traffic_sign", "op.network.remove_traffic_light",
             "op.network.remove_intersection", "op.scenario.remove_traffic_sign", "op.scenario.remove_traffic_light",
             "op.scenario.remove_intersection", "op.cutout.shape", "op.cutout.types", "op.cutout.both",
@@ -290,6 +290,7 @@ def run(ctx):
             if not before["lanelets"]:
                 break
             ops = ["scenario.remove_lanelet", "scenario.remove_lanelet-list", "scenario.remove_lanelet-noref",
+                   "scenario.remove_lanelet-in-two-calls", "scenario.remove_lanelet-in-two-calls-list",
                    "network.remove_lanelet", "network.remove_traffic_sign", "network.remove_traffic_light",
                    "network.remove_intersection", "scenario.remove_traffic_sign", "scenario.remove_traffic_light",
                    "scenario.remove_intersection", "cutout.shape", "cutout.types", "cutout.both", "cutout.list",
@@ -320,6 +321,13 @@ def run(ctx):
                         net.remove_lanelet(victims[0])
                         _forget(sc, victims[0])
                         exp_s, exp_t = set(), set()
+                    elif "in-two-calls" in op:
+                        # the two documented steps by hand: first the signs and lights that only the victims use, then the
+                        # lanelets themselves without their references
+                        arg_ = objs if "list" in op else objs[0]
+                        sc.remove_hanging_lanelet_members(arg_)
+                        sc.remove_lanelet(arg_, referenced_elements=False)
+                        exp_s, exp_t = vs - rs, vl - rl
                     else:
                         ref = "noref" not in op
                         sc.remove_lanelet(objs if "list" in op else objs[0], referenced_elements=ref)
